@@ -124,6 +124,8 @@ func (s *asyncSubjectImpl[T]) Error(err error) {
 // Implements Observer.
 func (s *asyncSubjectImpl[T]) ErrorWithContext(ctx context.Context, err error) {
 	s.mu.Lock()
+	defer s.unsubscribeAll() // once the lock is released: deferred calls run in reverse order
+	defer s.mu.Unlock()      // deferred: a subscriber's teardown may panic inside the terminal notification
 
 	if s.status == KindNext {
 		s.err = lo.T2(ctx, err)
@@ -132,9 +134,6 @@ func (s *asyncSubjectImpl[T]) ErrorWithContext(ctx context.Context, err error) {
 	} else {
 		OnDroppedNotification(ctx, NewNotificationError[T](err))
 	}
-
-	s.mu.Unlock()
-	s.unsubscribeAll()
 }
 
 // Implements Observer.
@@ -145,6 +144,8 @@ func (s *asyncSubjectImpl[T]) Complete() {
 // Implements Observer.
 func (s *asyncSubjectImpl[T]) CompleteWithContext(ctx context.Context) {
 	s.mu.Lock()
+	defer s.unsubscribeAll() // once the lock is released: deferred calls run in reverse order
+	defer s.mu.Unlock()      // deferred: a subscriber's teardown may panic inside the terminal notification
 
 	if s.status == KindNext {
 		s.status = KindComplete
@@ -156,9 +157,6 @@ func (s *asyncSubjectImpl[T]) CompleteWithContext(ctx context.Context) {
 	} else {
 		OnDroppedNotification(ctx, NewNotificationComplete[T]())
 	}
-
-	s.mu.Unlock()
-	s.unsubscribeAll()
 }
 
 func (s *asyncSubjectImpl[T]) HasObserver() bool {
